@@ -232,36 +232,181 @@ Proof.
   intros k v a Ha. apply s_set_keeps. exact Ha.
 Qed.
 
-(* ---- include order ---- *)
-Definition stA (done : list (list str)) : sim := {| cfgs := []; modules := map (fun q => (q, [])) done |}.
-Definition stB (c : cfg) (done : list (list str)) : sim :=
-  {| cfgs := [c]; modules := map (fun q => (q, capture_for_into c q)) done |}.
+(* ---- several includes, at arbitrary points of the node-creation sequence ---- *)
+Lemma capture_all_app cs c q : capture_all (cs ++ [c]) q = capture_for c q (capture_all cs q).
+Proof. unfold capture_all. rewrite fold_left_app. reflexivity. Qed.
 
-Lemma node_B c done q : node (stB c done) q = stB c (done ++ [q]).
-Proof. unfold node, stB. cbn [cfgs modules fold_left]. rewrite map_app. reflexivity. Qed.
-Lemma node_A done q : node (stA done) q = stA (done ++ [q]).
-Proof. unfold node, stA. cbn [cfgs modules fold_left]. rewrite map_app. reflexivity. Qed.
-Lemma include_A c done : include_cfg (stA done) c = stB c done.
-Proof. unfold include_cfg, stA, stB. cbn [cfgs modules app]. rewrite map_map. reflexivity. Qed.
+(* every module holds what capturing all configurations included so far, in the order of their
+   inclusion, gives for its path *)
+Definition sim_ok (s : sim) (done : list (list str)) : Prop :=
+  modules s = map (fun q => (q, capture_all (cfgs s) q)) done.
 
-Lemma build_B c k : forall paths done, build (stB c done) c k true paths = stB c (done ++ paths).
+Lemma include_ok s c done : sim_ok s done -> sim_ok (include_cfg s c) done /\ cfgs (include_cfg s c) = cfgs s ++ [c].
 Proof.
-  revert k. intros k paths. revert k. induction paths as [|q r IH]; intros k done.
-  - rewrite app_nil_r. reflexivity.
-  - cbn [build]. destruct k; rewrite node_B, IH, <- app_assoc; reflexivity.
+  unfold sim_ok. intros H. split; [|reflexivity]. unfold include_cfg. cbn [modules cfgs]. rewrite H, map_map.
+  apply map_ext. intros q. cbn [fst snd]. rewrite capture_all_app. reflexivity.
 Qed.
 
-Lemma build_A c : forall paths k done, build (stA done) c k false paths = stB c (done ++ paths).
+Lemma include_all_ok l : forall s done, sim_ok s done ->
+  sim_ok (include_all s l) done /\ cfgs (include_all s l) = cfgs s ++ map snd l.
 Proof.
-  induction paths as [|q r IH]; intros k done.
-  - cbn [build]. rewrite app_nil_r. apply include_A.
-  - cbn [build]. destruct k as [|k].
-    + rewrite include_A, node_B, build_B, <- app_assoc. reflexivity.
-    + rewrite node_A, IH, <- app_assoc. reflexivity.
+  induction l as [|x l IH]; intros s done H.
+  - cbn. rewrite app_nil_r. split; [exact H|reflexivity].
+  - unfold include_all. cbn [fold_left]. destruct (include_ok s (snd x) done H) as [H1 E1].
+    destruct (IH _ done H1) as [H2 E2]. split; [exact H2|]. unfold include_all in E2. rewrite E2, E1, <- app_assoc. reflexivity.
 Qed.
 
-(* whenever the configuration is included - before, between or after the node creations -
-   every module ends up with exactly what capture_for_into gives for its path *)
-Theorem include_order_irrelevant (c : cfg) (paths : list (list str)) (k : nat) :
-  modules (build sim_new c k false paths) = map (fun q => (q, capture_for_into c q)) paths.
-Proof. change sim_new with (stA []). rewrite build_A. reflexivity. Qed.
+Lemma node_ok s q done : sim_ok s done -> sim_ok (node s q) (done ++ [q]) /\ cfgs (node s q) = cfgs s.
+Proof.
+  unfold sim_ok. intros H. split; [|reflexivity]. unfold node. cbn [modules cfgs]. rewrite H, map_app. reflexivity.
+Qed.
+
+Lemma build_ok : forall paths s pending i done, sim_ok s done ->
+  sim_ok (build s pending i paths) (done ++ paths) /\
+  cfgs (build s pending i paths) = cfgs s ++ map snd (time_order pending i (length paths)).
+Proof.
+  induction paths as [|q r IH]; intros s pending i done H.
+  - cbn [build time_order length]. rewrite app_nil_r. apply include_all_ok. exact H.
+  - cbn [build time_order length].
+    destruct (include_all_ok (filter (at_now i) pending) s done H) as [H1 E1].
+    destruct (node_ok _ q done H1) as [H2 E2].
+    destruct (IH _ (filter (fun x => negb (at_now i x)) pending) (S i) _ H2) as [H3 E3].
+    split; [rewrite <- app_assoc in H3; exact H3|]. rewrite E3, E2, E1, map_app, <- app_assoc. reflexivity.
+Qed.
+
+(* However the configurations are scheduled - each before, between or after the node creations - every module
+   ends up with exactly the capture, in turn, of all of them in the order they were included. *)
+Theorem include_order_irrelevant (sched : list (nat * cfg)) (paths : list (list str)) :
+  modules (build sim_new sched 0 paths) =
+  map (fun q => (q, capture_all (map snd (time_order sched 0 (length paths))) q)) paths.
+Proof.
+  assert (sim_ok sim_new []) as H0 by reflexivity.
+  destruct (build_ok paths sim_new sched 0 [] H0) as [H E]. unfold sim_ok in H. cbn [app cfgs sim_new] in H, E.
+  rewrite H, E. reflexivity.
+Qed.
+
+(* the inclusion order is a rearrangement of the schedule: nothing is lost or included twice *)
+Lemma filter_split_perm {A} (f : A -> bool) l : Permutation (filter f l ++ filter (fun x => negb (f x)) l) l.
+Proof.
+  induction l as [|x l IH]; [constructor|]. cbn [filter]. destruct (f x); cbn [negb app].
+  - constructor. exact IH.
+  - apply Permutation_sym. apply Permutation_cons_app. apply Permutation_sym. exact IH.
+Qed.
+
+Theorem time_order_perm : forall k sched i, Permutation (time_order sched i k) sched.
+Proof.
+  induction k as [|k IH]; intros sched i; [apply Permutation_refl|]. cbn [time_order].
+  eapply Permutation_trans; [apply Permutation_app_head; apply IH|]. apply filter_split_perm.
+Qed.
+
+(* ---- capture of several configurations in turn = capture of their union (first set wins) ---- *)
+Definition rel_st (st a b : store) : Prop :=
+  (forall x, In x a -> In x st \/ In x b) /\ (forall name, hasS name b -> hasS name a) /\ (forall x, In x st -> In x a).
+
+Lemma s_get_hasS k st : (exists e, s_get k st = Some e) <-> hasS k st.
+Proof.
+  induction st as [|[k' e'] st IH]; cbn [s_get].
+  - split; [intros [e H]; discriminate|intros [e []]].
+  - destruct (str_eqb k k') eqn:E.
+    + apply str_eqb_eq in E. subst. split; [intros _; exists e'; left; reflexivity|intros _; exists e'; reflexivity].
+    + apply str_eqb_neq in E. rewrite IH. split.
+      * intros [e H]. exists e. right. exact H.
+      * intros [e [H|H]]; [injection H as -> _; contradiction|exists e; exact H].
+Qed.
+
+Lemma s_set_cases k v st :
+  (hasS k st /\ s_set k v st = st) \/ (~ hasS k st /\ s_set k v st = st ++ [(k, EYaml v)]).
+Proof.
+  unfold s_set. destruct (s_get k st) as [e|] eqn:G.
+  - left. split; [apply s_get_hasS; exists e; exact G|reflexivity].
+  - right. split; [|reflexivity]. intros H. apply s_get_hasS in H. destruct H as [e H]. congruence.
+Qed.
+
+Lemma rel_st_set st k v a b : rel_st st a b -> rel_st st (s_set k v a) (s_set k v b).
+Proof.
+  intros [R1 [R2 R3]].
+  destruct (s_set_cases k v a) as [[Ha ->]|[Ha ->]]; destruct (s_set_cases k v b) as [[Hb ->]|[Hb ->]].
+  - split; [exact R1|split; [exact R2|exact R3]].
+  - split; [|split; [|exact R3]].
+    + intros x Hx. destruct (R1 x Hx) as [H|H]; [left; exact H|right; apply in_or_app; left; exact H].
+    + intros name [e He]. apply in_app_or in He. destruct He as [He|[He|[]]]; [apply R2; exists e; exact He|].
+      injection He as <- _. exact Ha.
+  - exfalso. apply Ha. apply R2. exact Hb.
+  - split; [|split].
+    + intros x Hx. apply in_app_or in Hx. destruct Hx as [Hx|Hx].
+      * destruct (R1 x Hx) as [H|H]; [left; exact H|right; apply in_or_app; left; exact H].
+      * right. apply in_or_app. right. exact Hx.
+    + intros name [e He]. apply in_app_or in He. destruct He as [He|[He|[]]].
+      * destruct (R2 name (ex_intro _ e He)) as [e' He']. exists e'. apply in_or_app. left. exact He'.
+      * injection He as <- <-. exists (EYaml v). apply in_or_app. right. left. reflexivity.
+    + intros x Hx. apply in_or_app. left. apply R3. exact Hx.
+Qed.
+
+(* capturing into a store that already holds properties: nothing is lost, what is added comes from the
+   configuration, and every name the configuration gives is present afterwards *)
+Lemma capture_into_existing c q st : rel_st st (capture_for c q st) (capture_for_into c q).
+Proof.
+  unfold capture_for_into, capture_for.
+  apply (upd_sim store store s_set s_set (rel_st st)); [intros k v a b; apply rel_st_set|].
+  split; [intros x H; left; exact H|split; [intros name [e []]|intros x H; exact H]].
+Qed.
+
+Lemma capture_all_sound cs q : forall st x, In x (fold_left (fun st c => capture_for c q st) cs st) ->
+  In x st \/ exists c, In c cs /\ In x (capture_for_into c q).
+Proof.
+  induction cs as [|c cs IH]; intros st x H; [left; exact H|]. cbn [fold_left] in H.
+  destruct (IH _ x H) as [H1|[c' [Hc Hx]]].
+  - destruct (proj1 (capture_into_existing c q st) x H1) as [H2|H2]; [left; exact H2|].
+    right. exists c. split; [left; reflexivity|exact H2].
+  - right. exists c'. split; [right; exact Hc|exact Hx].
+Qed.
+
+Lemma capture_all_mono cs q : forall st name, hasS name st -> hasS name (fold_left (fun st c => capture_for c q st) cs st).
+Proof.
+  induction cs as [|c cs IH]; intros st name H; [exact H|]. cbn [fold_left]. apply IH.
+  destruct H as [e He]. exists e. apply (proj2 (proj2 (capture_into_existing c q st))). exact He.
+Qed.
+
+Lemma capture_all_complete cs q : forall st c name, In c cs -> hasS name (capture_for_into c q) ->
+  hasS name (fold_left (fun st c => capture_for c q st) cs st).
+Proof.
+  induction cs as [|c0 cs IH]; intros st c name Hc H; [destruct Hc|]. cbn [fold_left]. destruct Hc as [->|Hc].
+  - apply capture_all_mono. apply (proj1 (proj2 (capture_into_existing c q st))). exact H.
+  - eapply IH; eassumption.
+Qed.
+
+Definition guarded (g : list (str * N)) : Prop := wf_cfgb g = true /\ known_classb g = false.
+
+Lemma receives_concat groups p name v :
+  receives (concat groups) p name v <-> exists g, In g groups /\ receives g p name v.
+Proof.
+  unfold receives. split.
+  - intros [k [r [Hin HA]]]. apply in_concat in Hin. destruct Hin as [g [Hg Hk]]. exists g. split; [exact Hg|].
+    exists k, r. split; [exact Hk|exact HA].
+  - intros [g [Hg [k [r [Hk HA]]]]]. exists k, r. split; [apply in_concat; exists g; split; assumption|exact HA].
+Qed.
+
+(* For every partition of a configuration into includes (each a well-formed YAML mapping outside the known
+   class) the modules receive exactly what the specification gives for the union of the entries. *)
+Theorem multi_capture_sound groups p name e :
+  Forall guarded groups -> wf_pathb p = true ->
+  In (name, e) (capture_all (map cfg_new groups) p) ->
+  exists v, e = EYaml (Scalar v) /\ receives (concat groups) p name v.
+Proof.
+  intros G Wp H. apply capture_all_sound in H. destruct H as [[]|[c [Hc Hx]]].
+  apply in_map_iff in Hc. destruct Hc as [g [<- Hg]]. rewrite Forall_forall in G. destruct (G g Hg) as [W K].
+  destruct (capture_sound g p W K Wp name e Hx) as [v [-> R]]. exists v. split; [reflexivity|].
+  apply receives_concat. exists g. split; assumption.
+Qed.
+
+Theorem multi_capture_complete groups p name v :
+  Forall guarded groups -> wf_pathb p = true ->
+  receives (concat groups) p name v ->
+  exists v', In (name, EYaml (Scalar v')) (capture_all (map cfg_new groups) p) /\ receives (concat groups) p name v'.
+Proof.
+  intros G Wp R. apply receives_concat in R. destruct R as [g [Hg R]]. pose proof G as G'. rewrite Forall_forall in G'.
+  destruct (G' g Hg) as [W K]. destruct (capture_complete g p W K Wp name v R) as [v1 [Hin _]].
+  assert (hasS name (capture_all (map cfg_new groups) p)) as [e He].
+  { unfold capture_all. eapply capture_all_complete; [apply in_map; exact Hg|exists (EYaml (Scalar v1)); exact Hin]. }
+  destruct (multi_capture_sound groups p name e G Wp He) as [v' [-> R']]. exists v'. split; assumption.
+Qed.
